@@ -143,6 +143,34 @@ func runConnUDP(t *testing.T, c caseDef) []string {
 					m.SetMessageID(mid)
 					m.SetToken(message.Token{0x77, byte(mid)})
 					inject(m)
+				case "recvk":
+					at, _ := strconv.ParseInt(f[2], 10, 64)
+					sleepTo(start, at)
+					mid++
+					m := pool.NewMessage(context.Background())
+					m.SetMessageID(mid)
+					switch f[1] {
+					case "ping": // the peer's own CoAP ping: an empty confirmable message (answered with a reset)
+						m.SetCode(codes.Empty)
+						m.SetType(message.Confirmable)
+					case "ack": // an empty acknowledgement that matches nothing pending
+						m.SetCode(codes.Empty)
+						m.SetType(message.Acknowledgement)
+					case "rst":
+						m.SetCode(codes.Empty)
+						m.SetType(message.Reset)
+					default:
+						m.SetCode(codes.Content)
+						m.SetType(message.NonConfirmable)
+						m.SetToken(message.Token{0x78, byte(mid)})
+					}
+					inject(m)
+				case "tickf":
+					at, _ := strconv.ParseInt(f[1], 10, 64)
+					sleepTo(start, at)
+					s.WriteErr = fmt.Errorf("network is unreachable")
+					cc.CheckExpirations(time.Now())
+					s.WriteErr = nil
 				case "pong":
 					g, _ := strconv.Atoi(f[1])
 					at, _ := strconv.ParseInt(f[2], 10, 64)
@@ -242,6 +270,23 @@ func runConnTCP(t *testing.T, c caseDef) []string {
 					m.SetCode(codes.Content)
 					m.SetToken(message.Token{0x77, n})
 					send(m)
+				case "recvk":
+					at, _ := strconv.ParseInt(f[2], 10, 64)
+					sleepTo(start, at)
+					n++
+					m := pool.NewMessage(context.Background())
+					m.SetToken(message.Token{0x78, n})
+					switch f[1] {
+					case "ping":
+						m.SetCode(codes.Ping) // answered with a pong by the connection
+					case "ack":
+						m.SetCode(codes.Pong) // a pong nobody waits for
+					case "rst":
+						m.SetCode(codes.CSM)
+					default:
+						m.SetCode(codes.Content)
+					}
+					send(m)
 				case "pong":
 					g, _ := strconv.Atoi(f[1])
 					at, _ := strconv.ParseInt(f[2], 10, 64)
@@ -312,7 +357,8 @@ func TestC18(t *testing.T) {
 		case len(f) == 1 && f[0] == "end":
 			flush(w)
 			fmt.Fprintln(w, "end")
-		case cur != nil && (f[0] == "recv" && len(f) == 2 || f[0] == "pong" && len(f) == 3 || f[0] == "tick" && len(f) == 2):
+		case cur != nil && (f[0] == "recv" && len(f) == 2 || f[0] == "pong" && len(f) == 3 || f[0] == "tick" && len(f) == 2 ||
+			f[0] == "tickf" && len(f) == 2 || f[0] == "recvk" && len(f) == 3):
 			cur.ops = append(cur.ops, f)
 		default:
 			flush(w)
